@@ -48,6 +48,11 @@ func (e *Envelope) Sign(req *signature.SignRequest) ([]byte, error) {
 		return nil, err
 	}
 
+	// The internal envelope now holds the new signature. Drop the previously
+	// stored raw signature so that a failure below cannot leave the envelope
+	// with raw bytes that no longer match its content.
+	e.Raw = nil
+
 	// validate certificate chain
 	content, err := e.Envelope.Content()
 	if err != nil {
